@@ -821,4 +821,5 @@ def season_table_index(chk, prog, rule):
                 chk.ok(rule, where, construct, f"index is the formal {sorted(opaque)} - not decided", nontrivial=False)
             else:
                 chk.ok(rule, where, construct, "indexed by the season counter (or counter + 1)")
-    chk.floor(rule, n, 6, "reads of the per-season date tables while stepping")
+    # 6 on today's tree; the season reset's read may legitimately go (the corpus twin that slices the weather at the time-step counter)
+    chk.floor(rule, n, 5, "reads of the per-season date tables while stepping")
